@@ -279,7 +279,7 @@ func (g *gen) flawed(f flawSpec, long bool) *scen {
 	case 1:
 		s.pld = r.Range(900, 1400)
 	case 2:
-		s.pld = r.Range(1400, 8400)
+		s.pld = r.Range(1400, 7400)
 	default:
 		s.pld = r.Intn(1300)
 	}
